@@ -78,8 +78,59 @@ def render(template, values):
     return out
 
 
+def _run_one(h, scratch, verif, feat):
+    env = dict(os.environ, CARGO_NET_OFFLINE='true', CARGO_TARGET_DIR=os.path.join(verif, '.cache', 'kani-target'))
+    cmd = ['cargo', 'kani', '--lib', '--no-default-features', '--features', feat, '--output-format', 'terse',
+           '-Z', 'concrete-playback', '--concrete-playback=print', '--harness', h['harness']]
+    for z in h.get('zflags', []):
+        cmd += ['-Z', z]
+    timeout = h.get('timeout', 600)
+    t0 = time.time()
+    timed_out = False
+    try:
+        p = subprocess.run(cmd, cwd=scratch, env=env, stdout=subprocess.PIPE, stderr=subprocess.STDOUT, text=True, timeout=timeout)
+        out = p.stdout
+    except subprocess.TimeoutExpired as e:
+        out = (e.stdout or b'').decode('utf-8', 'replace') if isinstance(e.stdout, bytes) else (e.stdout or '')
+        timed_out = True
+        subprocess.run(['pkill', '-f', 'cbmc.*%s' % os.path.basename(scratch)], stdout=subprocess.DEVNULL, stderr=subprocess.DEVNULL)
+    wall = time.time() - t0
+    r = dict(h=h, wall=wall, cmd=' '.join(cmd), status='undecided', detail='', cex=None, replay=None)
+    name = h['harness']
+    if timed_out:
+        r['detail'] = 'timeout after %ds' % timeout
+        return r
+    vm = re.search(r'VERIFICATION:- (\w+)', out)
+    tm = re.search(r'Verification Time: ([0-9.]+)s', out)
+    r['verify_s'] = float(tm.group(1)) if tm else None
+    checks = re.search(r'\*\* (\d+) of (\d+) failed', out)
+    r['checks'] = (int(checks.group(1)), int(checks.group(2))) if checks else None
+    if not vm:
+        r['detail'] = 'no verdict (compile error / out of memory?)\n' + out[-2000:]
+    elif vm.group(1) == 'SUCCESSFUL':
+        r['status'] = 'ok'
+    else:
+        fails = re.findall(r'Failed Checks: ([^\n]*)\n\s*File: "([^"]*)", line (\d+)', out)
+        unw = [f for f in fails if 'unwinding assertion' in f[0]]
+        real = [f for f in fails if 'unwinding assertion' not in f[0]]
+        if real:
+            r['status'] = 'failed'
+            r['detail'] = '; '.join('%s (%s:%s)' % (f[0], os.path.basename(f[1]), f[2]) for f in real[:5])
+            vals = parse_playback(out, name)
+            if vals is not None and h.get('decode'):
+                dv = decode(vals, h['decode'])
+                if dv is not None:
+                    r['cex'] = dv
+        elif unw:
+            r['detail'] = 'unwinding bound too small: ' + unw[0][0]
+        else:
+            r['detail'] = 'FAILED without failed-check list\n' + out[-1500:]
+    return r
+
+
 def run_harnesses(hs, repo, verif, jobs=4):
-    """run all harnesses hs (same cargo invocation per feature set). returns list of result dicts"""
+    """one `cargo kani --harness H` per harness (own timeout each), up to `jobs` at a time, all in one scratch copy"""
+    import concurrent.futures as cf
     results = []
     by_feat = {}
     for h in hs:
@@ -97,80 +148,15 @@ def run_harnesses(hs, repo, verif, jobs=4):
                     text = f.read()
                 with open(os.path.join(scratch, h['append_to']), 'a') as f:
                     f.write('\n' + text)
-            env = dict(os.environ, CARGO_NET_OFFLINE='true', CARGO_TARGET_DIR=os.path.join(verif, '.cache', 'kani-target'))
-            cmd = ['cargo', 'kani', '--lib', '--no-default-features', '--features', feat, '--output-format', 'terse']
+            # compile once (first harness) before fanning out, so that the parallel runs only verify
+            first = _run_one(group[0], scratch, verif, feat)
+            rs = [first]
             if len(group) > 1:
-                cmd += ['-j', str(min(jobs, len(group)))]
-            else:
-                # concrete playback is incompatible with --jobs: only single-harness runs ask for it directly
-                cmd += ['-Z', 'concrete-playback', '--concrete-playback=print']
-            for z in sorted(set(z for h in group for z in h.get('zflags', []))):
-                cmd += ['-Z', z]
-            for h in group:
-                cmd += ['--harness', h['harness']]
-            timeout = max(h.get('timeout', 900) for h in group) + 120
-            t0 = time.time()
-            try:
-                p = subprocess.run(cmd, cwd=scratch, env=env, stdout=subprocess.PIPE, stderr=subprocess.STDOUT, text=True, timeout=timeout)
-                out = p.stdout
-                timed_out = False
-            except subprocess.TimeoutExpired as e:
-                out = (e.stdout or b'').decode('utf-8', 'replace') if isinstance(e.stdout, bytes) else (e.stdout or '')
-                timed_out = True
-            wall = time.time() - t0
-            for h in group:
-                r = dict(h=h, wall=wall, cmd=' '.join(cmd), status='undecided', detail='', cex=None, replay=None)
-                name = h['harness']
-                # per-harness summary lines:  "Verification failed for - path::name" / successes listed in "Complete - n successfully..."
-                sect = None
-                for sm in re.finditer(r'Checking harness ([\w:]+)\.\.\.(.*?)(?=Checking harness |Manual Harness Summary|$)', out, re.S):
-                    if sm.group(1).split('::')[-1] == name:
-                        sect = sm.group(2)
-                if sect is None and not timed_out:
-                    r['detail'] = 'harness output not found (compile error?)\n' + out[-2500:]
-                elif sect is None:
-                    r['detail'] = 'timeout'
-                else:
-                    vm = re.search(r'VERIFICATION:- (\w+)', sect)
-                    tm = re.search(r'Verification Time: ([0-9.]+)s', sect)
-                    r['verify_s'] = float(tm.group(1)) if tm else None
-                    checks = re.search(r'\*\* (\d+) of (\d+) failed', sect)
-                    r['checks'] = (int(checks.group(1)), int(checks.group(2))) if checks else None
-                    if vm and vm.group(1) == 'SUCCESSFUL':
-                        r['status'] = 'ok'
-                    elif vm and vm.group(1) == 'FAILED':
-                        fails = re.findall(r'Failed Checks: ([^\n]*)\n\s*File: "([^"]*)", line (\d+)', sect)
-                        unw = [f for f in fails if 'unwinding assertion' in f[0]]
-                        real = [f for f in fails if 'unwinding assertion' not in f[0]]
-                        if real:
-                            r['status'] = 'failed'
-                            r['detail'] = '; '.join('%s (%s:%s)' % f for f in real[:5])
-                            pb_out = out
-                            if len(group) > 1 and h.get('decode'):
-                                # second pass for this harness alone, with concrete playback
-                                cmd2 = ['cargo', 'kani', '--lib', '--no-default-features', '--features', feat, '--output-format', 'terse',
-                                        '-Z', 'concrete-playback', '--concrete-playback=print', '--harness', name]
-                                for z in h.get('zflags', []):
-                                    cmd2 += ['-Z', z]
-                                try:
-                                    pb_out = subprocess.run(cmd2, cwd=scratch, env=env, stdout=subprocess.PIPE, stderr=subprocess.STDOUT,
-                                                            text=True, timeout=h.get('timeout', 900) + 120).stdout
-                                except subprocess.TimeoutExpired:
-                                    pb_out = ''
-                            vals = parse_playback(pb_out, name)
-                            if vals is not None and h.get('decode'):
-                                dv = decode(vals, h['decode'])
-                                if dv is not None:
-                                    r['cex'] = dv
-                        elif unw:
-                            r['status'] = 'undecided'
-                            r['detail'] = 'unwinding bound too small: ' + unw[0][0]
-                        else:
-                            r['status'] = 'undecided'
-                            r['detail'] = 'FAILED without failed-check list\n' + sect[-1500:]
-                    else:
-                        r['detail'] = 'no verdict (out of memory / crash?)\n' + sect[-1500:]
-                # replay a counterexample on the real code
+                with cf.ThreadPoolExecutor(jobs) as ex:
+                    rs += list(ex.map(lambda hh: _run_one(hh, scratch, verif, feat), group[1:]))
+            # replay counterexamples on the real code
+            for r in rs:
+                h = r['h']
                 if r['cex'] is not None and h.get('replay_template'):
                     with open(os.path.join(verif, 'kani', h['replay_template'])) as f:
                         tmpl = f.read()
@@ -182,10 +168,10 @@ def run_harnesses(hs, repo, verif, jobs=4):
                                          'serializer,xml,RfsmExpressionModel', h.get('replay_filter', 'verif_replay_cex'), '--', '--test-threads', '1'],
                                         cwd=scratch, env=env2, stdout=subprocess.PIPE, stderr=subprocess.STDOUT, text=True, timeout=900)
                     pm = re.search(r"panicked at [^\n]*:\n([^\n]*)", rc.stdout)
-                    r['replay'] = dict(test_code=code, failed=('FAILED' in rc.stdout and 'test result: FAILED' in rc.stdout),
+                    r['replay'] = dict(test_code=code, failed=('test result: FAILED' in rc.stdout),
                                        message=pm.group(1)[:500] if pm else None,
                                        ran='test result:' in rc.stdout, tail=rc.stdout[-800:])
-                results.append(r)
+            results += rs
         finally:
             shutil.rmtree(scratch, ignore_errors=True)
     return results
